@@ -25,6 +25,23 @@
 (*   reload_ok "ok" | "fail" | "na"                                        *)
 (*   verify, printed    outcome of the verify command on `file`, and the   *)
 (*             values it printed;   verify2, printed2: same on `reload`    *)
+(*                                                                         *)
+(* and of the network the tools talk to:                                   *)
+(*   udsrc     "hex": the operator typed the user-defined (UD) value;      *)
+(*             "node": it is the hash of the best block of a Rootstock     *)
+(*             node (two JSON-RPC POSTs: eth_blockNumber, then             *)
+(*             eth_getBlockByNumber [number, false])                       *)
+(*   node, node_at   what that node does (ProperNode, or a misbehaviour    *)
+(*             at call node_at); node_n: the block number it reports, as   *)
+(*             a JSON-RPC quantity; node_url: where it lives               *)
+(*   rootvia   "file" | "url": where SGX verification takes the root of    *)
+(*             trust from; root_url                                        *)
+(*   http      every HTTP request the tools made, in order                 *)
+(*   ud_sent   the UD value the device was handed ("" = none)              *)
+(*   att_file  "yes" iff the attestation command left an output file       *)
+(*   contacted "yes" iff the attestation command opened the device link    *)
+(*   g_err, v_err   "none" | "AdminError" | "raw": how the attestation /   *)
+(*             verify command ended (raw = any other exception class)      *)
 (***************************************************************************)
 EXTENDS Naturals, Sequences, TLC
 
@@ -69,7 +86,14 @@ Expect(d) ==
 (***************************************************************************)
 (* C15 on observations.                                                    *)
 (***************************************************************************)
-Genuine(o) == o.alt = "none"
+ProperNode == {"ok", "grew", "reorg"}
+\* node misbehaviours after which get_ud_value_for_attestation, as it is coded today, lets a KeyError /
+\* TypeError / ValueError escape instead of raising AdminError (block without hash, null block, hash
+\* of the wrong length, not hex, without 0x).  The tool still stops (adm_* prints the text, exit 4).
+RawAsCoded == {"nohash", "nullblock", "hashlen", "hashnothex", "hashnoprefix"}
+NodeSane(o) == o.udsrc = "hex" \/ o.node \in ProperNode
+\* nothing was altered and the network behaved
+Genuine(o) == o.alt = "none" /\ NodeSane(o)
 
 WellFormedP(o) ==
     /\ o.plat \in {"ledger", "sgx"}
@@ -93,8 +117,49 @@ LosslessP(o) == /\ (o.g_onboard = "ok") => o.reload0 = o.file0
 ReloadedSameVerdictP(o) == (o.gather = "ok" /\ o.reload_ok = "ok") =>
                               (o.verify2 = o.verify /\ Printed(o.printed2) = Printed(o.printed))
 
+(***************************************************************************)
+(* The network side.                                                       *)
+(***************************************************************************)
+Posts(o) == SelectSeq(o.http, LAMBDA c : c.verb = "post")
+Gets(o)  == SelectSeq(o.http, LAMBDA c : c.verb = "get")
+RpcCall(o, m, ps) == [verb |-> "post", url |-> o.node_url, ctype |-> "application/json",
+                      version |-> "2.0", idkind |-> "int", method |-> m, params |-> ps]
+Call(c) == [f \in {"verb", "url", "ctype", "version", "idkind", "method", "params"} |-> c[f]]
+ExpectedPosts(o) == IF o.udsrc = "hex" \/ o.g_onboard = "fail" THEN 0
+                    ELSE IF o.node \notin ProperNode /\ o.node_at = 1 THEN 1 ELSE 2
+\* the node is asked exactly what the protocol says: the best block number, then THAT block
+NodeProtocolP(o) ==
+    LET ps == Posts(o) IN
+    /\ Len(ps) = ExpectedPosts(o)
+    /\ (Len(ps) >= 1) => Call(ps[1]) = RpcCall(o, "eth_blockNumber", <<>>)
+    /\ (Len(ps) >= 2) => Call(ps[2]) = RpcCall(o, "eth_getBlockByNumber", <<o.node_n, "false">>)
+\* whatever the source, the device is handed exactly the intended UD value (for a node: the hash it
+\* reported for that block at the second call, which is o.dev.ud)
+UdDeliveredP(o) == (o.gather = "ok") => o.ud_sent = o.dev.ud
+\* a misbehaving node: the attestation command stops with an error before touching the device and
+\* leaves no file
+NodeBadP(o) == (o.udsrc = "node" /\ o.node \notin ProperNode /\ o.g_onboard # "fail") =>
+                  /\ o.g_attest = "fail" /\ o.att_file = "no" /\ o.contacted = "no"
+                  /\ (o.g_err = "AdminError" \/ (o.g_err = "raw" /\ o.node \in RawAsCoded))
+\* the strict form (what one would like): always an AdminError.  Violated by the code as it is for
+\* exactly RawAsCoded (configuration Known2_AttestFlow).
+NodeBadStrictP(o) == (o.udsrc = "node" /\ o.node \notin ProperNode /\ o.g_onboard # "fail") =>
+                        o.g_err = "AdminError"
+\* root of trust by URL: one GET of that URL per verification, none otherwise; a verification that
+\* fails does so with an AdminError, never with another exception class
+VerifyRuns(o) == (IF o.verify = "na" THEN 0 ELSE 1) + (IF o.verify2 = "na" THEN 0 ELSE 1)
+RootFetchP(o) ==
+    LET gs == Gets(o) IN
+    /\ Len(gs) = (IF o.rootvia = "url" THEN VerifyRuns(o) ELSE 0)
+    /\ \A i \in 1..Len(gs) : gs[i].url = o.root_url
+    /\ (o.rootvia = "url" /\ o.verify = "fail") => o.v_err = "AdminError"
+
 Clauses(o) == <<
     <<"WellFormed", WellFormedP(o)>>,
+    <<"NodeBad", NodeBadP(o)>>,
+    <<"NodeProtocol", NodeProtocolP(o)>>,
+    <<"UdDelivered", UdDeliveredP(o)>>,
+    <<"RootFetch", RootFetchP(o)>>,
     <<"GenuineGathers", GenuineGathersP(o)>>,
     <<"GenuineVerifies", GenuineVerifiesP(o)>>,
     <<"AlteredFails", AlteredFailsP(o)>>,
